@@ -125,9 +125,19 @@ def gen_group(rng, group, nsched, real=None):
     programs = []
     for i, t in enumerate(tids):
         prog = P.gen_program(rng, eids, rng.randint(0, 14), style)
-        programs.append([t, [[i * 1000 + j, e, q,
-                              P.real_args(rng) if real is not None else [rng.getrandbits(64) for _ in range(4)]]
-                             for j, (e, q) in enumerate(prog)]])
+        recs = [[i * 1000 + j, e, q,
+                 P.real_args(rng) if real is not None else [rng.getrandbits(64) for _ in range(4)]]
+                for j, (e, q) in enumerate(prog)]
+        if group % 3 == 0:
+            # value-equal neighbours: the kernel does write byte-identical records back to back (same tick, same words);
+            # they are two records of the thread's program, whatever another thread's record does in between
+            dup = []
+            for r in recs:
+                dup.append(r)
+                if rng.random() < 0.2:
+                    dup.append(list(r))
+            recs = dup
+        programs.append([t, recs])
     lens = [len(p) for _, p in programs]
     return [materialise(codes, programs, schedule(rng, k, lens), k, group) for k in SCHEDULES[:nsched]]
 
